@@ -43,7 +43,13 @@ ROOTS = [
     '<r k="ü">€ 漢</r>',
     '<r>\U0001F600<x/>漢</r>',
     '<a><b><c><d>deep</d></c></b><!--c--></a>',
+    # "]]>" in character data (must be written with an escaped ">"): inside, at the very start, at the very end
+    '<r>a[b[0]]&gt;c</r>',
+    '<r>]]&gt;<x/>tail]]&gt;</r>',
+    '<r k="]]&gt;">]]&gt;</r>',
 ]
+# "]]>" split over adjacent text nodes (appended to the root through the API)
+ADJACENT = [["]]", ">"], ["a]", "]>b"], ["x", "]]>"], ["]", "]", ">"]]
 
 
 def kind_of(fo):
@@ -123,7 +129,25 @@ def build_doc(case, reduce):
             d.prologue.append(make_node(m))
         for m in epi:
             d.epilogue.append(make_node(m))
+    if case.get("adjacent"):
+        d.root.append_children(*[TextNode(t) for t in case["adjacent"]])
+        if reduce:
+            d.reduce_whitespace()
     return d
+
+
+def merge_texts(t):
+    """adjacent text nodes concatenated (what any reader delivers)"""
+    if t[0] != "tag":
+        return t
+    kids = []
+    for c in t[4]:
+        c = merge_texts(c)
+        if c[0] == "text" and kids and kids[-1][0] == "text":
+            kids[-1] = ("text", kids[-1][1] + c[1])
+        else:
+            kids.append(c)
+    return ("tag", t[1], t[2], t[3], kids)
 
 
 def root_chunk(d, fo):
@@ -334,7 +358,7 @@ def check_written(ctx, case, obs, d, data, enc, fo, via):
         ctx.fail("prologue differs after re-reading", dict(case, before=obs[0], after=bobs[0]))
     if bobs[2] != obs[2]:
         ctx.fail("epilogue differs after re-reading", dict(case, before=obs[2], after=bobs[2]))
-    if bobs[1] != obs[1]:
+    if bobs[1] != merge_texts(obs[1]):
         ctx.fail("root tree differs after re-reading", dict(case, before=obs[1], after=bobs[1]))
     # lxml on the same bytes
     try:
@@ -349,7 +373,7 @@ def check_written(ctx, case, obs, d, data, enc, fo, via):
         declared = lroot.getroottree().docinfo.encoding
         if not same_codec(declared or "", enc):
             ctx.fail("lxml reports encoding %r for a document saved with %r" % (declared, enc), case)
-    if fo is None:
+    if fo is None and not case.get("adjacent"):      # appended text nodes live in delb's objects, not in the lxml tree
         a, b = lxml_tree(lroot), lxml_tree(d.root._etree_obj)
         if a != b:
             ctx.fail("root tree read by lxml differs", dict(case, before=repr(b)[:400], after=repr(a)[:400]))
@@ -666,9 +690,28 @@ def gen_doc_case(rng, i):
     root = ROOTS[i] if i < len(ROOTS) else rng.choice([r for r in ROOTS if fits(r, cls)])
     if i < len(ROOTS):
         cls = "any"
-    return {"pro": [gen_misc(rng, cls) for _ in range(n_pro)], "root": root,
+    case = {"pro": [gen_misc(rng, cls) for _ in range(n_pro)], "root": root,
             "epi": [gen_misc(rng, cls) for _ in range(n_epi)], "route": "api" if rng.random() < 0.35 else "parse",
             "prepend": rng.random() < 0.5}
+    if case["route"] == "api" and rng.random() < 0.35:
+        case["adjacent"] = rng.choice(ADJACENT)
+    return case
+
+
+# fixed cases: "]]>" in character data - inside a text, at its very start and end, split over adjacent text nodes -
+# must come back from the written bytes (the ">" has to be written escaped), with every serializer kind
+FIXED_SERIALIZE = [
+    {"pro": [("comment", "c")], "root": "<r>a[b[0]]&gt;c</r>", "epi": [], "route": "parse", "enc": "utf-8", "nl": None, "fo": None},
+    {"pro": [], "root": "<r>]]&gt;<x/>tail]]&gt;</r>", "epi": [("pi", "p", "x")], "route": "parse", "enc": "utf-16", "nl": "\r\n",
+     "fo": (False, "  ", 0)},
+    {"pro": [], "root": "<r>]]&gt;</r>", "epi": [], "route": "parse", "enc": "ascii", "nl": "\n", "fo": (False, "", 15)},
+    {"pro": [("comment", "c")], "root": "<r><x/></r>", "epi": [], "route": "api", "adjacent": ["]]", ">"], "enc": "utf-8",
+     "nl": None, "fo": None},
+    {"pro": [], "root": "<r>a]</r>", "epi": [], "route": "api", "adjacent": ["]", ">b"], "enc": "iso-8859-1", "nl": None,
+     "fo": (True, "\t", 0)},
+    {"pro": [], "root": "<r/>", "epi": [("comment", "e")], "route": "api", "adjacent": ["x", "]]>"], "enc": "utf-8", "nl": None,
+     "fo": (False, " ", 20)},
+]
 
 
 def configs(rng, n, thorough):
@@ -727,7 +770,7 @@ def run(ctx, args):
         n_docs = 120 if quick else 1200
         per_doc = 5 if quick else 10
         docs = [gen_doc_case(ctx.rng, i) for i in range(n_docs)]
-        ser_cases = []
+        ser_cases = [dict(c, also_write=True, also_str=True) for c in FIXED_SERIALIZE]
         for i, dc in enumerate(docs):
             for j, (enc, nl, fo) in enumerate(configs(ctx.rng, per_doc, not quick)):
                 ser_cases.append(dict(dc, enc=enc, nl=nl, fo=fo, also_write=(i + j) % 3 == 0, also_str=(i + j) % 2 == 0 or not quick))
@@ -754,7 +797,7 @@ def run(ctx, args):
         shutil.rmtree(SCRATCH, ignore_errors=True)
     return ctx.finish(
         rule="documents: root out of %d fixed trees (empty, mixed content, namespaces, escapes, xml:space=preserve, long text, "
-             "Latin-1 / BMP / astral characters) with 0-3 comments/PIs before and after it (every shape 0..3 x 0..3), built by "
+             "Latin-1 / BMP / astral characters, ']]>' in character data - also split over adjacent API-made text nodes) with 0-3 comments/PIs before and after it (every shape 0..3 x 0..3), built by "
              "parsing or through prologue/epilogue insert/append; x encoding {utf-8, utf-16, iso-8859-1, ascii, also upper case} "
              "x newline {None, LF, CRLF; thorough: also '', CR} x format {none, 6 FormatOptions incl. width > 0}; via save, write "
              "and str(); every written document re-read with Document(bytes) and lxml. Reader model: random streams of "
